@@ -69,12 +69,16 @@ impl<T: 'static> Resource<T> {
                 if started.get() != this_fetch {
                     return;
                 }
-                batch(move || {
+                let guards = batch(move || {
                     self.value.set(Some(value));
                     self.is_loading.set(false);
-                    // Now, drop all the guards to resolve suspense.
-                    self.guards.update(|guards| guards.clear());
+                    self.guards.take_silent()
                 });
+                // Now, drop all the guards to resolve suspense. This happens only after the readers
+                // of the resource have reacted to the new value: what they render may suspend the
+                // same boundary again (e.g. an async component), and the boundary must not look
+                // resolved in between.
+                drop(guards);
             });
         });
 
